@@ -86,3 +86,24 @@ Fixpoint lrun (l : wlist) (ops : list lop) : list (wlist * lret) :=
   | [] => []
   | o :: r => let x := lstep l o in x :: lrun (fst x) r
   end.
+
+(* ---------------------------------------------------------------------------------------- *)
+(* specification side: a plain sequence                                                      *)
+
+Definition lspec_step (s : list N) (o : lop) : list N * lret :=
+  match o with
+  | LAppend x => if (x =? 0)%N then (s, LRBool false) else (s ++ [x], LRBool true)
+  | LInsert x pos =>
+      if (x =? 0)%N then (s, LRBool false)
+      else if (N.of_nat (length s) <=? pos)%N then (s ++ [x], LRBool true)   (* beyond the end: appended *)
+      else (firstn (N.to_nat pos) s ++ x :: skipn (N.to_nat pos) s, LRBool true)
+  | LGet i => (s, LRItem (if (N.of_nat (length s) <=? i)%N then None else nth_error s (N.to_nat i)))
+  | LExtractFirst => match s with [] => (s, LRItem None) | x :: r => (r, LRItem (Some x)) end
+  | LLen => (s, LRLen (N.of_nat (length s)))
+  end.
+
+Fixpoint lspec_run (s : list N) (ops : list lop) : list (list N * lret) :=
+  match ops with
+  | [] => []
+  | o :: r => let x := lspec_step s o in x :: lspec_run (fst x) r
+  end.
